@@ -48,6 +48,10 @@ func NewTDistribution(nu Scalar, mu Vector, sigma Matrix) (*TDistribution, error
   t  := nu.Type()
   t1 := NewScalar(t, 0.0)
 
+  if !(nu.GetFloat64() > 0.0) {
+    return nil, fmt.Errorf("NewTDistribution(): invalid value for parameter nu: %f", nu.GetFloat64())
+  }
+
   n, m := sigma.Dims()
 
   if n != m {
